@@ -79,7 +79,7 @@ var FaultKinds = []string{
 	"omit-param-TYPE", "omit-param-ENUM", "omit-param-MACRO", "omit-param-PASTE", "omit-param-TAG", "omit-param-Tags", "omit-param-Protocol",
 	"omit-param-Method", "omit-param-JSIGHT", "omit-param-BaseUrl", "omit-param-SERVER", "omit-param-Title", "omit-param-Version", "omit-param-URL",
 	"undefined-type-shortcut", "undefined-type-array", "undefined-type-rule", "undefined-type-allOf", "undefined-type-param", "undefined-type-or",
-	"undefined-enum", "undefined-macro", "undefined-tag",
+	"undefined-enum", "undefined-macro", "undefined-tag", "undefined-tag-like-auto",
 }
 
 // InjectFault puts exactly one fault of a drawn kind into a copy of the valid
@@ -191,6 +191,40 @@ func InjectFault(t *rapid.T, doc0 *Doc) (*Doc, Fault, bool) {
 					doc.Top = append(doc.Top, c)
 					return []int{d.ID, c.ID}
 				})
+			}
+			if d.Child("Tags") == nil {
+				// Tags naming the automatic tag of another (untagged) interaction's path
+				var autoNames []string
+				doc.Walk(func(x, xp *Dir) {
+					if IsVerb(x.Kw) && x != d && x.Child("Tags") == nil && (xp == nil || xp.Child("Tags") == nil) {
+						path := ""
+						if len(x.Params) > 0 {
+							path = x.Params[0]
+						} else if xp != nil && len(xp.Params) > 0 {
+							path = xp.Params[0]
+						}
+						if n, _ := AutoTagOf(path); path != "" {
+							autoNames = append(autoNames, n)
+						}
+					}
+				})
+				declaredTag := map[string]bool{}
+				doc.Walk(func(x, _ *Dir) {
+					if x.Kw == "TAG" && len(x.Params) > 0 {
+						declaredTag[x.Params[0]] = true
+					}
+				})
+				for _, an := range autoNames {
+					if !declaredTag[an] {
+						an := an
+						add("undefined-tag-like-auto", func() []int {
+							td := &Dir{ID: f.id(), Kw: "Tags", Params: []string{an}}
+							d.Children = append([]*Dir{td}, d.Children...)
+							return []int{td.ID}
+						})
+						break
+					}
+				}
 			}
 			if d.Child("Tags") == nil && len(d.Children) > 0 {
 				add("undefined-tag", func() []int {
@@ -418,4 +452,93 @@ func ReachableMacros(doc *Doc) map[string]bool {
 		}
 	}
 	return reach
+}
+
+// InjectBodyFault removes the body of a request or response (the Headers, if
+// any, stay). Such documents are outside the C11 list; they matter for C09:
+// if one is accepted, the catalog has a request / response without a body.
+func InjectBodyFault(t *rapid.T, doc0 *Doc) (*Doc, bool) {
+	doc := doc0.Copy()
+	var sites []func()
+	doc.Walk(func(d, parent *Dir) {
+		if d.Kw != "Request" && !IsCode(d.Kw) {
+			return
+		}
+		if d.Schema != nil {
+			sites = append(sites, func() { d.Schema = nil })
+			sites = append(sites, func() {
+				d.Schema = nil
+				d.Children = append([]*Dir{{ID: doc.MaxID() + 1, Kw: "Headers", Schema: &Schema{Notation: "jsight", Root: "obj", Obj: &Obj{Props: []Prop{{Key: "X-h", V: Val{Kind: "str", Str: "v"}}}}}}}, d.Children...)
+			})
+		} else if b := d.Child("Body"); b != nil {
+			sites = append(sites, func() {
+				var ch []*Dir
+				for _, c := range d.Children {
+					if c != b {
+						ch = append(ch, c)
+					}
+				}
+				d.Children = ch
+				if len(ch) == 0 {
+					d.Explicit = false
+				}
+			})
+		}
+	})
+	if len(sites) == 0 {
+		return doc, false
+	}
+	sites[rapid.IntRange(0, len(sites)-1).Draw(t, "bodyFaultSite")]()
+	return doc, doc.FixContexts()
+}
+
+// InjectSchemaConfusion replaces the schema of one schema-bearing directive by
+// a schema of another shape (a reference to any declared type whatever its
+// notation, an array, a scalar, an "or", a regex, any / empty): documents that
+// are usually invalid, for the totality and path-parameter checks.
+func InjectSchemaConfusion(t *rapid.T, doc0 *Doc) (*Doc, int, bool) {
+	doc := doc0.Copy()
+	var hosts []*Dir
+	var typeNames []string
+	doc.Walk(func(d, p *Dir) {
+		if d.Schema != nil && d.Kw != "TYPE" {
+			hosts = append(hosts, d)
+		}
+		if d.Kw == "TYPE" && len(d.Params) > 0 {
+			typeNames = append(typeNames, d.Params[0])
+		}
+	})
+	if len(hosts) == 0 {
+		return doc, 0, false
+	}
+	d := hosts[rapid.IntRange(0, len(hosts)-1).Draw(t, "confHost")]
+	tn := "@undefinedType"
+	if len(typeNames) > 0 && rapid.IntRange(0, 5).Draw(t, "confUndefined") > 0 {
+		tn = rapid.SampledFrom(typeNames).Draw(t, "confType")
+	}
+	keepParam := d.Schema.AsParam
+	switch rapid.IntRange(0, 8).Draw(t, "confShape") {
+	case 0:
+		d.Schema = &Schema{Notation: "jsight", Root: "ref", Ref: tn}
+	case 1:
+		d.Schema = &Schema{Notation: "jsight", Root: "arrref", Ref: tn}
+	case 2:
+		d.Schema = &Schema{Notation: "jsight", Root: "int", Int: 5}
+	case 3:
+		d.Schema = &Schema{Notation: "jsight", Root: "str", Str: "text"}
+	case 4:
+		d.Schema = &Schema{Notation: "jsight", Root: "or", Ref: tn, Ref2: tn}
+	case 5:
+		d.Schema = &Schema{Notation: "regex", Regex: "ab+c"}
+	case 6:
+		d.Schema = &Schema{Notation: "any", AsParam: true}
+	case 7:
+		d.Schema = &Schema{Notation: "jsight", Raw: []string{"{", "  \"a\": {\"b\": [1, 2]},", "  \"c\": null // {nullable: true}", "}"}}
+	default:
+		d.Schema = &Schema{Notation: "jsight", Raw: []string{"[]"}}
+	}
+	if keepParam && (d.Schema.Root == "ref" || d.Schema.Root == "arrref") {
+		d.Schema.AsParam = true
+	}
+	return doc, d.ID, true
 }
